@@ -350,7 +350,7 @@ func corpus() []corpusApp {
 			codec.Ins{Op: codec.INCMP, Sym: "bad", Sel: "1"}, codec.Ins{Op: codec.INCMP, Sym: "errn", Sel: "2"})
 		a.Node("bad", "bad {{.bv}}", codec.Ins{Op: codec.LOAD, Sym: "bv", N: 8}, codec.Ins{Op: codec.MAP, Sym: "bv"}, codec.Ins{Op: codec.HALT}, codec.Ins{Op: codec.INCMP, Sym: "_", Sel: "0"})
 		a.Node("errn", "errn", codec.Ins{Op: codec.MAP, Sym: "nosuch"}, codec.Ins{Op: codec.HALT}, codec.Ins{Op: codec.INCMP, Sym: "_", Sel: "0"})
-		a.Node("_catch", "catch", codec.Ins{Op: codec.HALT}, codec.Ins{Op: codec.INCMP, Sym: "_", Sel: "*"})
+		a.Node("_catch", "catch", codec.Ins{Op: codec.HALT}, codec.Ins{Op: codec.MOVE, Sym: "^"})
 		a.Func("bv", func(e *app.Env, sym string, in []byte, l string) (resource.Result, error) {
 			if e.Counts[sym] <= 1 {
 				return resource.Result{}, fmt.Errorf("backend hiccup")
